@@ -117,6 +117,19 @@ assert py_aes_encrypt("cbc", bytes(range(16)), bytes(16), b"")[:0] == b"" and _e
     _expand(bytes(range(16))), bytes.fromhex("00112233445566778899aabbccddeeff")).hex() == "69c4e0d86a7b0430d8cdb78070b4c55a"  # FIPS-197 C.1
 
 
+def gen_pt(n, seed):
+    """plaintext of the `big` lines: pt[i] = byte(i*167 + seed*13 + (i>>8)*31)"""
+    base = seed * 13
+    return bytes(((i * 167 + base + (i >> 8) * 31) & 0xFF) for i in range(n))
+
+
+def fnv64(b):
+    h = 0xcbf29ce484222325
+    for x in b:
+        h = ((h ^ x) * 0x100000001b3) & 0xFFFFFFFFFFFFFFFF
+    return "%016x" % h
+
+
 class C19(Spec):
     id = "C19"
     anchors = ["aesx.*"]
@@ -126,7 +139,9 @@ class C19(Spec):
             "array (prefix, spare capacity, tail filled with sentinels) + Decrypt of the ciphertext placed in the same "
             "layout + 8 goroutines sharing the cipher; compared with the Lean FIPS-197 AES-CBC-PKCS7 / CFB-128: "
             "ciphertext, round trip, full backing arrays. distinct by script line; non-trivial = legal key and IV "
-            "(the property's domain). `dec` lines (arbitrary ciphertexts) exercise pkcs5Trimming off the round-trip path")
+            "(the property's domain). `dec` lines (arbitrary ciphertexts) exercise pkcs5Trimming off the round-trip path. "
+            "`big` lines: the same case for LARGE plaintexts (65535 .. 1 MiB, thorough up to 3 MiB, generated from a seed; "
+            "spare capacity 0, 1, pad-1, pad, 16, 64), ciphertext compared by length + FNV-1a hash")
     trusted_base = [
         "crypto/aes, crypto/cipher: modelled by contract (block permutation E/D; CryptBlocks = CBC, XORKeyStream = CFB-128); "
         "checked on every case against the Lean FIPS-197 implementation (known-answer tests at driver start-up), and on "
@@ -143,6 +158,8 @@ class C19(Spec):
         self.openssl_checked = 0
         self.openssl_budget = 0
         self.pyaes_checked = 0
+        self.openssl_big = 0
+        self.pyaes_big = 0
 
     # ---- L3
     def oracle(self, script, impl):
@@ -151,6 +168,8 @@ class C19(Spec):
             return ("crash-or-hang", "harness produced no observation: " + impl[:200])
         if w[0] == "dec":
             return None  # arbitrary ciphertexts: outside the property (model fidelity only)
+        if w[0] == "big" and len(w) == 8:
+            return self.oracle_big(w, script, impl)
         if w[0] != "enc" or len(w) != 7:
             return None
         mode, iv = parse_opts(w[1])
@@ -196,8 +215,60 @@ class C19(Spec):
                 pass
         return None
 
+    def oracle_big(self, w, script, impl):
+        """large inputs: same property, observations abbreviated (length + FNV-1a hash of the ciphertext)"""
+        mode, iv = parse_opts(w[1])
+        key, n, seed = unhex(w[2]), int(w[4]), int(w[5])
+        if len(key) not in (16, 24, 32) or len(iv) != 16:
+            return None
+        if impl.startswith("panic"):
+            return ("panic", "Encrypt/Decrypt panicked on legal key/IV: " + impl[:200])
+        f = impl.split()
+        try:
+            i_in, i_arr, i_rt, i_darr, i_conc = f.index("in"), f.index("arr"), f.index("rt"), f.index("darr"), f.index("conc")
+            ctlen, cthash = int(f[1]), f[2]
+        except (ValueError, IndexError):
+            return ("malformed", "unexpected harness output")
+        desc = "%d-byte plaintext, %d bytes of spare capacity" % (n, len(unhex(w[6])))
+        if f[i_rt + 1] != "ok":
+            return ("roundtrip", "Decrypt(Encrypt(p)) != p for a " + desc)
+        want = 16 * (n // 16 + 1) if mode == "cbc" else n
+        if ctlen != want:
+            return ("length", "ciphertext has %d bytes, the standard construction gives %d (%s)" % (ctlen, want, mode))
+        if f[i_in + 1] != "same":
+            return ("input-modified", "Encrypt changed the caller's slice contents (" + desc + ")")
+        if f[i_arr + 1] != "same":
+            return ("input-modified", "Encrypt wrote to the caller's backing array outside the slice (%s): first change at array "
+                    "offset %s" % (desc, f[i_arr + 1][8:120]))
+        if f[i_darr + 1] != "same":
+            return ("input-modified", "Decrypt wrote to the caller's backing array (%s): %s" % (desc, f[i_darr + 1][:120]))
+        if f[i_conc + 1] != "ok":
+            return ("concurrent-differs", "8 goroutines sharing the cipher did not reproduce the sequential answers (" + desc + ")")
+        # independent implementations: openssl on every large case (fast), pure-Python FIPS-197 on a few of the smaller ones
+        pt = None
+        if self.openssl and self.openssl_big < 200:
+            self.openssl_big += 1
+            pt = gen_pt(n, seed)
+            alg = "-aes-%d-%s" % (len(key) * 8, mode)
+            try:
+                p = subprocess.run([self.openssl, "enc", alg, "-K", key.hex(), "-iv", iv.hex()], input=pt,
+                                   stdout=subprocess.PIPE, stderr=subprocess.PIPE, timeout=60)
+                if p.returncode == 0 and fnv64(p.stdout) != cthash:
+                    return ("not-standard", "ciphertext of a %s differs from `openssl enc %s`" % (desc, alg))
+            except Exception:
+                pass
+        if n <= 100000 and self.pyaes_big < 3 and hashlib.md5(script.encode()).digest()[1] < 64:
+            self.pyaes_big += 1
+            pt = pt or gen_pt(n, seed)
+            if fnv64(py_aes_encrypt(mode, key, iv, pt)) != cthash:
+                return ("not-standard", "ciphertext of a %s differs from the standard AES-%d-%s construction (independent Python FIPS-197)"
+                        % (desc, len(key) * 8, mode.upper()))
+        return None
+
     def nontrivial(self, script, impl):
         w = script.split()
+        if w[0] == "big" and len(w) == 8:
+            return len(unhex(w[2])) in (16, 24, 32) and len(parse_opts(w[1])[1]) == 16
         if w[0] != "enc" or len(w) != 7:
             return False
         mode, iv = parse_opts(w[1])
@@ -217,6 +288,7 @@ class C19(Spec):
         ctx["coverage"]["receiver_field_writes"] = hits
         ctx["coverage"]["openssl_cross_checked"] = self.openssl_checked
         ctx["coverage"]["python_fips197_cross_checked"] = self.pyaes_checked
+        ctx["coverage"]["large_inputs_cross_checked"] = {"openssl": self.openssl_big, "python_fips197": self.pyaes_big}
         if hits:
             ctx["broken"].append({"layer": "L2", "what": "a cipher method assigns to a receiver field (the model assumes Encrypt/Decrypt "
                                   "are pure, which is what makes sharing between goroutines safe): %s" % hits[:3]})
